@@ -21,7 +21,7 @@ import numpy as np
 from .. import probe, real
 
 LEVEL = "exploration"
-TECHNIQUE = "runtime monitoring: acceptance vectors (isinstance verdict + bindings over NumPy/JAX/scalar/duck probes) of every generated annotation vs its round-tripped copy through pickle protocols 2-5, cloudpickle, copy, deepcopy - in the same process and loaded in a fresh child process; originals re-measured after dumping/loading; sibling annotations loaded together, kept alive, or loaded after the previous copy was garbage-collected; loads after the original changed state; copies made while checking was off"
+TECHNIQUE = "runtime monitoring: acceptance vectors (isinstance verdict + bindings over NumPy/JAX/scalar/duck probes) of every generated annotation vs its round-tripped copy through pickle protocols 2-5, cloudpickle, copy, deepcopy - in the same process and loaded in a fresh child process; originals re-measured after dumping/loading; sibling annotations loaded together, kept alive, or loaded after the previous copy was garbage-collected; loads after the original changed state; copies made while checking was off; array types whose instances change over time, original and copies asked at every moment; the first check of an annotation interrupted (KeyboardInterrupt from a trace function) at every line event, then compared with a fresh annotation and with its pickle copy"
 LEVEL_TEXT = (
     "Held on every generated annotation x route explored: all 34 categories + an importable user category, array types "
     "class/Any/Union/nested annotation/TypeVar, dim strings with _, ..., *v, #, symbolic. Sampling over the product; each "
